@@ -572,6 +572,10 @@ def classify_return(n):
     if n[0] == "from_residual":
         e = n[1]
         if e[0] == "err":
+            x = e[1]
+            # `Err(e)?` (the residual of a value built as Err right here): returns Err(From::from(e))
+            if x[0] == "agg" and x[1][0] == "adt" and x[1][1] == "std::result::Result" and x[1][2] == "Err" and len(x[2]) == 1:
+                return ("err", x[2][0])
             return ("propagate", e[1])
         return ("propagate", e)
     if n[0] == "call":
@@ -640,6 +644,21 @@ def decoder_role(facts, key):
                     cb = facts.body(clo[1])
                     err = error_const(norm(cb.resolve_local(0)))
                 return {"kind": "strict", "error": err}
+    # the same as an explicit match: Ok(d) => Ok(d), Err(_) => Err(E)
+    calls = [(bb, callee_name(tt["callee"])) for bb, tt in b.calls()]
+    dec = [bb for bb, pth in calls if pth == "percent_encoding::PercentDecode::<'a>::decode_utf8"]
+    if len(dec) == 1 and sorted(pth for _, pth in calls) == sorted(["percent_encoding::percent_decode_str", "percent_encoding::PercentDecode::<'a>::decode_utf8"]):
+        dt = norm(b.call_term(dec[0]))
+        src = dt[2][0]
+        if src[0] == "call" and src[1] == "percent_encoding::percent_decode_str" and src[2] == (("arg", 1),):
+            rets = [(bb, classify_return(n)) for (bb, n) in returns(b)]
+            if len(rets) == 2 and sorted(c[0] for _, c in rets) == ["err", "ok"]:
+                (be, ce), (bo, co) = sorted(rets, key=lambda r: r[1][0])
+                ae = [canon_atom(a) for _, a in atoms_at(b, be)]
+                ao = [canon_atom(a) for _, a in atoms_at(b, bo)]
+                okp = co[1] == ("ok", dt)
+                if okp and len(ae) == 1 and ae[0][0] == "callres" and ae[0][1] == dt[1] and ae[0][-1] in ("Err", "Err?") and len(ao) == 1 and ao[0][0] == "callres" and ao[0][-1] in ("Ok", "Ok?"):
+                    return {"kind": "strict", "error": error_const(ce[1])}
     return None
 
 
@@ -887,7 +906,8 @@ def canon_atom(a):
         if p == SLICE_CONTAINS and const_strs(args[0]) is not None:
             return ("inlist", tuple(const_strs(args[0])), _value(args[1]), pos)
         if (p.endswith("<impl std::cmp::PartialEq for str>::eq") or p.endswith("<impl std::cmp::PartialEq for str>::ne")
-                or p in ("std::cmp::impls::<impl std::cmp::PartialEq<&B> for &A>::eq", "std::cmp::impls::<impl std::cmp::PartialEq<&B> for &A>::ne")) and len(args) == 2:
+                or p in ("std::cmp::impls::<impl std::cmp::PartialEq<&B> for &A>::eq", "std::cmp::impls::<impl std::cmp::PartialEq<&B> for &A>::ne")
+                or ("std::cmp::PartialEq<" in p and (p.endswith("::eq") or p.endswith("::ne")) and any(w in p for w in ("str>", "&str", "std::string::String", "std::borrow::Cow<", "SmartString")))) and len(args) == 2:
             eqpos = pos if p.endswith("::eq") else (not pos)
             for x, y in ((args[0], args[1]), (args[1], args[0])):
                 y = strip(y)
@@ -999,7 +1019,8 @@ def _defines_anything_relevant(body, p):
     if t["t"] == "call":
         # conversions of the error value (Into::into / From::from) are transparent
         pth = callee_name(t["callee"]) if "path" in t["callee"] else ""
-        return not (pth.endswith("::into") or pth.endswith("::from"))
+        raw = t["callee"].get("path", "")
+        return not (pth.endswith("::into") or pth.endswith("::from") or raw in ("std::ops::Try::branch", "std::ops::FromResidual::from_residual"))
     return True
 
 
